@@ -12,6 +12,9 @@ claimed = {
  "C08": dict(cat="proof", sec="7/C08",
    text="Deductive proof that each of the three breakers implements the reference automaton of the statement, per operation and for all field values and clock readings: representation invariants (e.g. open => failures >= threshold) preserved by every operation under contract, opens iff the consecutive-failure threshold is reached, reports open while the timeout has not elapsed since the last failure, admits again afterwards (health: stamped admission => at most one probe per second; unifier: admitted iff probes asked <= configured number), closes on success / re-opens on a failed probe, success clears the count; hence no history (any length) leaves the automaton outside the invariant.",
    note="Sequential proofs; racing callers are covered only where a single atomic read-modify-write decides (atomic-once on unifier.halfOpenRequests); the unifier open->half-open transition race and olla's unlimited half-open admissions are not decided. xsync.Map is a trusted mathematical-map model; the clock is monotone; unifier configuration precondition cfgOK is proved for DefaultConfig only. One genuine defect (health breaker never refreshed its probe stamp) was found by ensures.5 of health.CircuitBreaker.IsOpen, confirmed by replay, and repaired by a fix: commit."),
+ "C07": dict(cat="proof", sec="7/C07",
+   text="Deductive proof of the health-check state machine per function for all inputs: determineStatus decision table (healthy only for a reached 2xx; connection/timeout/circuit-open errors offline; error statuses unhealthy), classifyError table over the error abstraction, calculateBackoff == (delayOf, nextMult) with the arithmetic lemmas that the multiplier sequence is 1,2,4,8,12,12.. and the delay is min(interval*M, 60 s), checkEndpoint persists exactly the check's status, resets on success, advances failures/multiplier/next-check on failure and spawns one recovery callback iff not-healthy(and not unknown)->healthy and the update succeeded; HealthClient.Check: healthy only after a real client.Do, loop terminates (decreases), success clears the breaker.",
+   note="Histories are covered by induction over per-call contracts (sched lemmas), not enumerated. Ghost records (records clauses) name the values flowing into EndpointRepository.UpdateEndpoint and out of HealthClient.Check; they are definitional. Not decided: that the 30 s ticker keeps firing (runtime), the stale-snapshot race between checkEndpoint and markEndpointUnhealthy, overflow of interval*multiplier for intervals above 24 years (mathematical integers). One genuine defect (slow 5xx reported busy) was found, replayed and fixed."),
 }
 not_applicable = {}
 props = [json.loads(l) for l in open('/verif/properties.jsonl')]
